@@ -117,7 +117,23 @@ func directivesSeq2(s string) iter.Seq2[string, string] {
 // parseDirectives parses a string of cache directives and returns a map
 // where the keys are the directive names and the values are the arguments.
 func parseDirectives(s string) map[string]string {
+	return addDirectives(make(map[string]string), s)
+}
+
+// parseDirectiveLines parses the Cache-Control field lines of a message. Several
+// field lines are one comma-separated list (RFC 9110 §5.3), but each line is
+// split on its own: a quoted-string cannot extend over field lines, so a
+// malformed line (an unterminated quote) cannot swallow the directives of the
+// lines that follow it.
+func parseDirectiveLines(lines []string) map[string]string {
 	m := make(map[string]string)
+	for _, line := range lines {
+		addDirectives(m, line)
+	}
+	return m
+}
+
+func addDirectives(m map[string]string, s string) map[string]string {
 	for key, value := range directivesSeq2(s) {
 		// A directive given twice: the first occurrence is used (RFC 9111
 		// §4.2.1: "either the first occurrence should be used or the response
@@ -170,11 +186,10 @@ func getDurationDirective(d map[string]string, token string) (dur time.Duration,
 type CCRequestDirectives map[string]string
 
 func ParseCCRequestDirectives(header http.Header) CCRequestDirectives {
-	value := cacheControlValue(header)
-	if value == "" {
+	if cacheControlValue(header) == "" {
 		return nil
 	}
-	return parseDirectives(value)
+	return parseDirectiveLines(header.Values("Cache-Control"))
 }
 
 // MaxAge parses the "max-age" request directive as defined in RFC 9111, §5.2.1.1.
@@ -229,11 +244,10 @@ func (d CCRequestDirectives) StaleIfError() (dur time.Duration, valid bool) {
 type CCResponseDirectives map[string]string
 
 func ParseCCResponseDirectives(header http.Header) CCResponseDirectives {
-	value := cacheControlValue(header)
-	if value == "" {
+	if cacheControlValue(header) == "" {
 		return nil
 	}
-	return parseDirectives(value)
+	return parseDirectiveLines(header.Values("Cache-Control"))
 }
 
 // MaxAge parses the "max-age" response directive as defined in RFC 9111, §5.2.2.1.
